@@ -37,6 +37,7 @@ type ChainDB interface {
 
 	GetAssetID(id common.Hash) (common.Address, error)
 	GetAssetCode(code common.Hash) (common.Address, error)
+	GetAssetCodeByBlock(code common.Hash, hash common.Hash) (common.Address, error)
 
 	SerializeForks(currentHash common.Hash) string
 
